@@ -91,6 +91,28 @@ class Ctx:
     def note(self, message: str):
         self.info.append(message)
 
+    def include(self, other_run, only_rules: set, as_rule: str, desc: str, floor: int = 1):
+        """Run another property's rule function and adopt the instances/findings of the
+        rules in *only_rules* under the rule id *as_rule*."""
+        sub = Ctx(self.prop, self.model, self.tier)
+        other_run(sub)
+        self.rule(as_rule, desc, floor)
+        for rid in only_rules:
+            r = sub.rules.get(rid)
+            if r is None:
+                self.error(f"included rule {rid} did not run", rule=as_rule)
+                continue
+            self.rules[as_rule]["instances"] += r["instances"]
+            self.rules[as_rule]["nontrivial"] |= r["nontrivial"]
+        for f in sub.findings:
+            if f.rule in only_rules:
+                self.fail(f.construct, f.where, f.message, f.steps, f.expected, f.observed, rule=as_rule)
+        for e in sub.errors:
+            if any(f"rule={rid} " in e for rid in only_rules):
+                self.errors.append(e.replace("rule=", f"rule={as_rule} via "))
+        self.modules_used |= sub.modules_used
+        self.functions |= sub.functions
+
     def use(self, *things):
         for t in things:
             mod = getattr(t, "module", t)
